@@ -56,13 +56,3 @@ Proof.
   - clear -Hout. induction Hout as [|x l Hx _ IH]; cbn [map]; constructor; assumption.
   - constructor.
 Qed.
-
-(* the pattern that reaches the streaming region (after canonicalize) streams the scheduled bytes —
-   no side condition beyond the Safe class *)
-Theorem final_pattern_bytes_eq elsize bcast spats dims p :
-  convert_okb elsize spats dims = true -> to_pattern bcast spats dims = Ok p ->
-  byte_stream TCDM (pattern_words (sp_canonicalize p) spats) = byte_stream elsize (nest dims).
-Proof.
-  intros Hok Hp. rewrite (canonicalize_words p spats (to_pattern_nonneg _ _ _ _ _ Hok Hp)).
-  exact (pattern_bytes_eq elsize bcast spats dims p Hok Hp).
-Qed.
